@@ -200,7 +200,8 @@ theorem addNew_stored {s s' : Snap} {n syn : Node} {f2o : SlotMap} {data : Strin
     (h : addNew s n f2o syn data = some (s', a)) :
     ∃ (n1 : Node) (perms : List Perm),
       s' = setNew (allocClass s (keys f2o) syn data) s.uf.length (Node.weakShape n1)
-        (Grp.generators (addAll (Grp.mk (identity (keys f2o)) []) perms)) := by
+        (Grp.generators (addAll (Grp.mk (identity (keys f2o)) []) perms)) ∧
+      lookupShape (allocClass s (keys f2o) syn data) (Node.weakShape n1).1 (Node.weakShape n1).2 = none := by
   unfold addNew at h
   split at h
   · simp at h
@@ -217,16 +218,64 @@ theorem addNew_stored {s s' : Snap} {n syn : Node} {f2o : SlotMap} {data : Strin
             · simp at h
             · split at h
               · simp at h
-              · split at h
+              · rename_i hmiss2
+                split at h
                 · simp at h
                 · simp only [Option.some.injEq, Prod.mk.injEq] at h
-                  refine ⟨n1, selfSyms (allocClass s (keys f2o) syn data) n1, ?_⟩
-                  unfold shape at hsh
-                  rw [hpre] at hsh
-                  simp only [Option.map_some, Option.some.injEq] at hsh
-                  rw [hsh]
-                  exact h.1.symm
+                  refine ⟨n1, selfSyms (allocClass s (keys f2o) syn data) n1, ?_, ?_⟩
+                  · unfold shape at hsh
+                    rw [hpre] at hsh
+                    simp only [Option.map_some, Option.some.injEq] at hsh
+                    rw [hsh]
+                    exact h.1.symm
+                  · unfold shape at hsh
+                    rw [hpre] at hsh
+                    simp only [Option.map_some, Option.some.injEq] at hsh
+                    rw [hsh]
+                    exact hmiss2
           · simp at h
+
+/-- a shape `lookupShape` misses is stored in no class -/
+theorem not_stored_of_miss {s : Snap} {sh : Node} {bij : SlotMap} (h : lookupShape s sh bij = none) :
+    sh ∉ s.classes.flatMap fun c => c.nodes.map (·.1) := by
+  intro hin
+  obtain ⟨c, hc, hsh⟩ := List.mem_flatMap.mp hin
+  obtain ⟨e, he, rfl⟩ := List.mem_map.mp hsh
+  unfold lookupShape at h
+  rw [List.findSome?_eq_none_iff] at h
+  have hc' := h c hc
+  cases hf : c.nodes.find? (·.1 == e.1) with
+  | none =>
+    rw [List.find?_eq_none] at hf
+    exact hf e he (by simp)
+  | some x =>
+    rw [hf] at hc'
+    cases hc'
+
+/-- **the hashcons stays a function**: if no shape was stored twice before a modelled insertion, none is afterwards -/
+theorem add_keeps_shapes_unique {s s' : Snap} {n syn : Node} {f2o : SlotMap} {data : String} {a : AppId}
+    (hok : AddOK s) (hu : (s.classes.flatMap fun c => c.nodes.map (·.1)).Nodup)
+    (h : addNew s n f2o syn data = some (s', a)) :
+    (s'.classes.flatMap fun c => c.nodes.map (·.1)).Nodup := by
+  obtain ⟨n1, perms, hs, hmiss⟩ := addNew_stored h
+  have hnot := not_stored_of_miss hmiss
+  have hcl : s'.classes = s.classes ++ [SClass.mk s.uf.length (keys f2o) [Node.weakShape n1]
+      (Grp.generators (addAll (Grp.mk (identity (keys f2o)) []) perms)) syn data] := by
+    rw [hs]
+    unfold setNew allocClass
+    simp only [List.map_append, List.map_cons, List.map_nil, beq_self_eq_true, if_true]
+    rw [map_id_of_ne _ _ _ (addOK_ids hok)]
+  rw [hcl]
+  unfold allocClass at hnot
+  simp only [List.flatMap_append, List.flatMap_cons, List.flatMap_nil, List.map_nil, List.append_nil, List.map_cons] at hnot ⊢
+  rw [List.nodup_append]
+  refine ⟨hu, List.nodup_singleton _, ?_⟩
+  intro x hx y hy
+  rw [List.mem_singleton] at hy
+  subst hy
+  intro hxy
+  subst hxy
+  exact hnot hx
 
 end Snap
 end SV
